@@ -1,3 +1,4 @@
+from vlib.props import pcommon
 from vlib import framework as fw
 from vlib.monitors import strmon
 
@@ -20,3 +21,7 @@ def check(run, only=None):
         o2 = fw.merge_worker_results(results, "")
         o2["rule"] = None
         run.add_bounded(o2)
+    if only in (None, "P"):
+        from vlib.companions import parserfuncs as pf
+        pcommon.add_proof(run, "C19", ["parglare.grammar.StringRecognizer.__call__"], [pf.run_misc],
+                          "case-sensitive StringRecognizer matches iff the text at pos equals its value, for every text")
